@@ -11,8 +11,9 @@
                     literal (quote / backslash / newline) - a separate family.                *)
 EXTENDS ManifestAst, Json
 CONSTANTS Mode, K, ShapeLo, ShapeHi, Prefixed
-VARIABLES fam, pre, children, ins, st
-vars == <<fam, pre, children, ins, st>>
+VARIABLES fam, pre, children, ins, st, blk
+vars == <<fam, pre, children, ins, st, blk>>
+Blocks == 48     \* Mode "args": the shapes are dealt to this many intermediate states (one per TLC worker at a time)
 Rand == Mode = "rand"
 Rich == Mode \in {"args", "rand"}
 Pick(S) == IF Rand /\ S # {} THEN {RandomElement(S)} ELSE S
@@ -24,10 +25,10 @@ Headers == IF Rand THEN {<<"v1", 0, 0>>, <<"sys", 2, 0>>, <<"sys", 1, 0>>, <<"v2
 \* (the third component is unused; children = second component for v2, preallocated for sys)
 GInit == \E h \in Pick(Headers) :
            /\ fam = h[1] /\ pre = (IF h[1] = "sys" THEN h[2] ELSE 0) /\ children = (IF h[1] = "v2" THEN h[2] ELSE 0)
-           /\ ins = <<>> /\ st = St0(IF h[1] = "sys" THEN h[2] ELSE 0, IF h[1] = "v2" THEN h[2] ELSE 0)
+           /\ ins = <<>> /\ st = St0(IF h[1] = "sys" THEN h[2] ELSE 0, IF h[1] = "v2" THEN h[2] ELSE 0) /\ blk = -1
 
 Do(i) == /\ i.op \in OpsOf(fam) /\ ~IsBad(Step(st, i))
-         /\ ins' = Append(ins, i) /\ st' = Step(st, i) /\ UNCHANGED <<fam, pre, children>>
+         /\ ins' = Append(ins, i) /\ st' = Step(st, i) /\ UNCHANGED <<fam, pre, children, blk>>
 
 Op(name) == [I0 EXCEPT !.op = name]
 CandTake == {[Op("TakeFromWorktop") EXCEPT !.res = ResAmt[x][1], !.amt = ResAmt[x][2]] : x \in P(Len(ResAmt))}
@@ -99,14 +100,14 @@ CandArgsCall == UNION {
                                      !.bp = FunctionCalls[f][2], !.fn = FunctionCalls[f][3], !.args = al] : al \in ArgsFor(j)}
      \cup (IF Prefixed THEN {} ELSE
            {[Op("YieldToParent") EXCEPT !.args = <<Shape(j)>>], [Op("YieldToChild") EXCEPT !.child = j % 2, !.args = <<Shape(j)>>]})
-   : j \in ShapeChoices}
+   : j \in {x \in ShapeChoices : x % Blocks = blk}}
 \* yields: only buckets travel (the compiler does not track objects passed to a yield)
 CandYield == {[Op("YieldToParent") EXCEPT !.args = al] : al \in ArgLists(FALSE)}
        \cup {[Op("YieldToChild") EXCEPT !.child = c, !.args = al] : c \in Pick(0..(st.ni - 1)), al \in ArgLists(FALSE)}
 \* arguments that are not a tuple: the decompiler must refuse (no text, no claim)
 CandRaw == IF Mode = "args" /\ ~Prefixed
            THEN {[Op("CallMethod") EXCEPT !.addr = Static("account"), !.m = "raw", !.args = <<Shape(j)>>, !.raw = TRUE]
-                 : j \in {x \in ShapeChoices : Shape(x).t \notin {"Tuple", "Nest"}}}
+                 : j \in {x \in ShapeChoices : x % Blocks = blk /\ Shape(x).t \notin {"Tuple", "Nest"}}}
            ELSE {}
 
 \* the fixed object-creating prefix of Mode "args" with Prefixed
@@ -126,14 +127,15 @@ NAssert == Free /\ Mode # "args" /\ \E i \in Pick(CandAssert) : Do(i)
 NAllocate == Free /\ Mode # "args" /\ \E i \in Pick(CandAllocate) : Do(i)
 NVerify == Free /\ Mode # "args" /\ \E i \in Pick(CandVerify) : Do(i)
 NCall == Free /\ Mode # "args" /\ \E i \in Pick(CandCall) : Do(i)
-NArgs == Free /\ Mode = "args" /\ \E i \in CandArgsCall : Do(i)
+NBlock == Free /\ Mode = "args" /\ blk = -1 /\ blk' \in 0..(Blocks - 1) /\ UNCHANGED <<fam, pre, children, ins, st>>
+NArgs == Free /\ Mode = "args" /\ blk >= 0 /\ \E i \in CandArgsCall : Do(i)
 NCallFunction == Free /\ Mode # "args" /\ \E i \in Pick(CandCallFunction) : Do(i)
 NYield == Free /\ Mode # "args" /\ fam = "v2" /\ \E i \in Pick(CandYield) : Do(i)
-NRaw == Free /\ \E i \in CandRaw : Do(i)
+NRaw == Free /\ blk >= 0 /\ \E i \in CandRaw : Do(i)
 \* in "args" mode also walk the parameter tables of the non-call instructions once
-NParams == Mode = "args" /\ ~Prefixed /\ ins = <<>> /\ ShapeLo = 1
+NParams == Mode = "args" /\ ~Prefixed /\ ins = <<>> /\ ShapeLo = 1 /\ blk = -1
            /\ \E i \in CandTake \cup CandProofNew \cup CandAssert \cup CandAllocate \cup CandVerify : Do(i)
-NParamsB == Mode = "args" /\ Prefixed /\ Len(ins) = Len(PrefixIns) /\ ShapeLo = 1
+NParamsB == Mode = "args" /\ Prefixed /\ Len(ins) = Len(PrefixIns) /\ ShapeLo = 1 /\ blk = -1
            /\ \E i \in CandBucketOp : Do(i)
 \* -simulate: one random instruction class per step (otherwise every class would print)
 Classes == <<"take", "bucket", "proofnew", "proofop", "noarg", "assert", "alloc", "verify", "call", "call", "callf", "yield">>
@@ -149,7 +151,7 @@ NRand == /\ Rand /\ Len(ins) < K
             \E okset \in {{i \in cand : i.op \in OpsOf(fam) /\ ~IsBad(Step(st, i))}} :
                IF okset = {} THEN Do(Op("DropAuthZoneProofs")) ELSE \E i \in {RandomElement(okset)} : Do(i)
 GNext == NRand \/ NPrefix \/ NTake \/ NBucketOp \/ NProofNew \/ NProofOp \/ NNoArg \/ NAssert \/ NAllocate \/ NVerify
-         \/ NCall \/ NArgs \/ NCallFunction \/ NYield \/ NRaw \/ NParams \/ NParamsB
+         \/ NCall \/ NBlock \/ NArgs \/ NCallFunction \/ NYield \/ NRaw \/ NParams \/ NParamsB
 GSpec == GInit /\ [][GNext]_vars
 
 \* ---- emission
@@ -159,7 +161,7 @@ StylesFor == IF Mode = "esc" THEN EscapeStyles
 CaseOf(style) ==
   [fam |-> fam, pre |-> pre, children |-> children, blobs |-> 2 + (Len(ins) % 2), names |-> style,
    given |-> NameLists(st, IF style = "unknown" THEN "default" ELSE style), ins |-> ins,
-   exp |-> ExpectedNames(st, style),
+   exp |-> ExpectedNames(st, style), depth |-> ArgDepth(ins),
    dec_exp |-> IF \E j \in 1..Len(ins) : ins[j].raw THEN "err" ELSE "ok"]
 Emit == (Len(ins) >= 1 /\ ~InPrefix) => \A s \in StylesFor : PrintT(<<"B", ToJson(CaseOf(s))>>)
 =============================================================================
